@@ -10,7 +10,7 @@ from vlib import Leg, run_worker
 
 WS = {
     "w1": ["deep/er/x.lua", "imp.lua", "lib/lib.lua", "main.lua", "sub/ann.lua", "sub/ann2.lua", "syn.lua"],
-    "w2": ["common/test.lua", "one.lua", "port/off.lua", "port/on_a.lua", "port/on_b.lua", "tests/t1.lua"],
+    "w2": ["c++/lib2.lua", "c+v/inc.lua", "common/test.lua", "one.lua", "port/off.lua", "port/on_a.lua", "port/on_b.lua", "tests/t1.lua"],
 }
 NFLAGS = 26
 SPECIAL = [2, 3, 10, 11, 12]
@@ -29,8 +29,9 @@ def ints(l):
     return ".".join(str(x) for x in l) if l else "_"
 
 
-def client(flags, ih=(), ie=()):
-    return "%s;%s;%s" % ("".join("1" if f else "0" for f in flags), names(ih), names(ie))
+def client(flags, ih=(), ie=(), local=False):
+    """local=True: the client also sends LocalRun (meaningful in the init cfg only)"""
+    return "%s;%s;%s%s" % ("".join("1" if f else "0" for f in flags), names(ih), names(ie), ";L" if local else "")
 
 
 def jsoncfg(show=1, ign=(), op=(), ih=(), ie=(), ft=(), entry=0):
@@ -78,7 +79,8 @@ def rand_flags(rng):
     return f
 
 
-LIT_PARTS = ["/", ".", ".lua", "lua", "a", "x", "_", "on", "t", "er", "sub", "port", "tmp", "lhc17", "server/meta", "r"]
+LIT_PARTS = ["/", ".", ".lua", "lua", "a", "x", "_", "on", "t", "er", "sub", "port", "tmp", "lhc17", "server/meta", "r",
+             "c+v", "c+v/", "c++", "c++/lib2.lua", "+v/inc.lua", "c+", "+v/", "+v", "++/", "+/", "+/lib2.lua", "+"]
 REGEXES = ["on.*lua", "^sub/", "^/tmp", "o[nf]+\\.lua", "a.*b", ".*", "port/on_.\\.lua", "x\\.lua$", "(sub|lib)/", "^$",
            "[a-z]+/[a-z]+/", "t1?\\.lua", "deep", "\\.lua", "ann2?", "[0-9]+", "er/x", "^port/", "test", "s$", "/$"]
 BAD_REGEXES = ["(", "[a", "a{2,1}", "*", "on(.lua", "\\", "(?P<n", "x.lua)", "+.lua"]
@@ -115,10 +117,10 @@ def rand_patterns(rng, ws, allow_bad, p_some=0.5):
     return [rand_pattern(rng, ws, allow_bad) for _ in range(rng.choice([1, 1, 1, 2, 3]))]
 
 
-def rand_client(rng, ws, bad_err=0.04):
+def rand_client(rng, ws, bad_err=0.04, local=0.0):
     ih = rand_patterns(rng, ws, True, 0.35)
     ie = rand_patterns(rng, ws, rng.random() < bad_err, 0.45)
-    return client(rand_flags(rng), ih, ie)
+    return client(rand_flags(rng), ih, ie, rng.random() < local)
 
 
 def rand_types(rng):
@@ -180,10 +182,11 @@ def gen_filter(rng, tier):
         root = rand_root(rng)
         m = rng.random()
         if m < 0.30:                                 # initializationOptions
-            out.append(case(ws, root, None, rand_client(rng, ws), []))
+            out.append(case(ws, root, None, rand_client(rng, ws, local=0.08), []))
         elif m < 0.55:                               # later settings change(s); first notification = start-up sync
-            c0 = rand_client(rng, ws, 0.0)
-            chs = [c0] + [rand_client(rng, ws, 0.02) for _ in range(rng.choice([1, 1, 2, 3]))]
+            c0 = rand_client(rng, ws, 0.0, local=0.08)
+            sync = c0[:-2] if c0.endswith(";L") else c0
+            chs = [sync] + [rand_client(rng, ws, 0.02) for _ in range(rng.choice([1, 1, 2, 3]))]
             out.append(case(ws, root, None, c0, chs))
         elif m < 0.70:                               # the same intent by all three routes (three cases)
             f = rand_flags(rng); ih = rand_patterns(rng, ws, True, 0.3); ie = rand_patterns(rng, ws, False, 0.4)
@@ -193,7 +196,7 @@ def gen_filter(rng, tier):
             out.append(case(ws, rand_root(rng), None, c0, [c0, c]))
             out.append(case(ws, rand_root(rng), to_json_of(f, ih, ie), rand_client(rng, ws, 0.0), []))
         elif m < 0.95:                               # luahelper.json
-            out.append(case(ws, root, rand_json(rng, ws), rand_client(rng, ws, 0.1), []))
+            out.append(case(ws, root, rand_json(rng, ws), rand_client(rng, ws, 0.1, local=0.08), []))
         else:                                        # luahelper.json + later client changes (ignored)
             out.append(case(ws, root, rand_json(rng, ws, 0.0), rand_client(rng, ws, 0.0),
                             [rand_client(rng, ws, 0.3) for _ in range(2)]))
@@ -202,7 +205,7 @@ def gen_filter(rng, tier):
 
 def nontrivial(c):
     f = c.split(" ")
-    return not (f[3] == "-" and f[4].startswith("1" * NFLAGS + ";_;_") and f[5] == "-")
+    return not (f[3] == "-" and f[4] == "1" * NFLAGS + ";_;_" and f[5] == "-")
 
 
 def shrink_case(c):
@@ -221,6 +224,9 @@ def shrink_case(c):
             r = l[:i] + l[i + 1:]
             yield emit(chs="|".join(r) if r else "-")
     def shrink_client(s):
+        if s.endswith(";L"):
+            yield s[:-2]
+            return
         fl, ih, ie = s.split(";")
         for lst, idx in ((ih, 1), (ie, 2)):
             if lst != "_":
@@ -255,9 +261,10 @@ def describe(c):
     def names_of(s):
         return [] if s == "_" else [bytes.fromhex(x).decode("latin1") if x != "-" else "" for x in s.split(",")]
     def cl(s):
-        fl, ih, ie = s.split(";")
+        fl, ih, ie = s.split(";")[:3]
         off = [i for i, ch in enumerate(fl) if ch == "0"]
-        return "off=%s IgnoreFileOrDir=%s IgnoreFileOrDirError=%s" % (off, names_of(ih), names_of(ie))
+        return "off=%s IgnoreFileOrDir=%s IgnoreFileOrDirError=%s%s" % (off, names_of(ih), names_of(ie),
+                                                                         " LocalRun" if s.endswith(";L") else "")
     d = "ws=%s root=%s" % (f[0], bytes.fromhex(f[1]).decode())
     if f[3] != "-":
         p = f[3].split(";")
@@ -270,12 +277,39 @@ def describe(c):
     return d[:900]
 
 
+def distribution(rows, rawcache):
+    """what the generated cases looked like (goes into the evidence)"""
+    import collections
+    route, cls, outcome = collections.Counter(), collections.Counter(), collections.Counter()
+    pats = collections.Counter()
+    for c, i, m, s, k in rows:
+        f = c.split(" ")
+        route["luahelper.json" if f[3] != "-" else ("settings-change x%d" % min(3, len(f[5].split("|")) - 1) if f[5] != "-"
+                                                    else "initializationOptions")] += 1
+        for x in k.split(","):
+            cls[x if x != "-" else "none"] += 1
+        outcome["crash" if i.startswith("CRASH") else ("no diagnostics" if i == "_" else "diagnostics")] += 1
+        pats["with ignore patterns" if ("=E" in f[6] or f[6].count("=") > 1) else "no pattern"] += 1
+        if "=E" in f[6]:
+            pats["with a pattern that does not compile"] += 1
+        if len(f) > 7 and "0" in f[7]:
+            pats["some file not analysed"] += 1
+    types = set()
+    for v in rawcache.values():
+        for e in v.split(","):
+            p = e.split(":")
+            if len(p) >= 4:
+                types.add(int(p[1]))
+    return {"routes": dict(route), "deviation_classes": dict(cls), "outcomes": dict(outcome), "patterns": dict(pats),
+            "raw_runs": len(rawcache), "diagnostic_types_triggered": sorted(types)}
+
+
 LEG = Leg("c17.filter", gen_filter, nontrivial=nontrivial, shrink=shrink_case, per_case_s=3.0, describe=describe)
 LEGS = [LEG]
 
-# switch to "1" once the regexp.Compile repair (work/fixes/C17-regexp-compile.diff) is applied to /repo:
-# the model then predicts "bad pattern = literal text only" instead of the crash
-MODEL_ENV = {"C17_FIXED": os.environ.get("C17_FIXED", "0")}
+# The model variant (regexp.MustCompile crash vs. repaired regexp.Compile) follows the code through the translator
+# (GenFlags.must_compile_user_text -> Tie.fixed_regexp_now); C17_FIXED=0/1 in the environment overrides it.
+MODEL_ENV = {"C17_FIXED": os.environ["C17_FIXED"]} if "C17_FIXED" in os.environ else {}
 
 
 class C17Runner(vlib.Runner):
@@ -354,6 +388,7 @@ ASSUMPTIONS = [
     "types 24, 25, 27 are never triggered by the test workspaces (the model's rules for them are read from the code, not exercised)",
     "project entry files (luahelper.json ProjectFiles, second-pass mode) are outside the modelled fragment; malformed JSON text of luahelper.json is not modelled (observed: initialize answers with an error, the server stays up)",
     "client protocol: the first workspace/didChangeConfiguration after initialize repeats the initializationOptions (vscode-languageclient synchronize); the server swallows it",
+    "LocalRun is modelled only as far as the nil-map fault at initialize goes (the test workspaces use no system globals, so the system-module list it installs does not change their diagnostics)",
     "pattern matching is on the absolute file name (IsIgnoreErrorFile) resp. the name relative to the workspace (ignore for analysis), as in the code; the spec uses the same names",
 ]
 
@@ -362,9 +397,15 @@ def main(tier, seed):
     r = C17Runner("C17", tier, seed)
     r.build(ties=("TieConfig",))
     can_run = r.impl_exe and r.model_exe and not any(k in ("corr-build", "model-build") for k, _, _ in r.build_problems)
+    extra = {}
     if can_run:
         os.makedirs("/tmp/lhc17", exist_ok=True)
         r.replay_findings({l.name: l for l in LEGS})
         for leg in LEGS:
-            r.run_leg(leg)
-    return r.finish(LEGS, trusted=TRUSTED, assumptions=ASSUMPTIONS)
+            rows = r.run_leg(leg)
+            extra["input_distribution"] = distribution(rows, r.rawcache)
+    LEG_RULE = ("non-trivial = anything but 'every switch on, no pattern, no luahelper.json, no change'; observable = sorted "
+                "(file, type, line, column) of the client's final publishDiagnostics view, or CRASH <reason>")
+    for st in r.leg_stats:
+        st["rule"] = LEG_RULE
+    return r.finish(LEGS, extra_cov=extra, trusted=TRUSTED, assumptions=ASSUMPTIONS)
